@@ -196,6 +196,32 @@ func twoSourceManager(ctx context.Context, rr *core.Rand, s int) string {
 			return fmt.Sprintf("rows stamped with a pair that does not exist: %s (%v)", k, got)
 		}
 	}
+	// ... and every row comes from the chain of the source it is stamped with (block number + sender)
+	froms := func(n *simnode.Node) map[string]bool {
+		m := map[string]bool{}
+		n.With(func(c *simnode.Chain) {
+			for _, b := range c.Blocks {
+				for _, t := range b.Txs {
+					for _, l := range t.Logs {
+						if len(l.Topics) == 3 && bytes.Equal(l.Topics[0], transferEvent.SignatureHash()) {
+							m[fmt.Sprintf("%d/%x", b.Num, l.Topics[1][12:])] = true
+						}
+					}
+				}
+			}
+		})
+		return m
+	}
+	bySrc := map[string]map[string]bool{"sa": froms(n1), "sb": froms(n2)}
+	for _, tb := range []string{"ttwo", "tlogs"} {
+		for _, r := range pg.Rows(tb) {
+			src := fmt.Sprint(r["src_name"])
+			key := fmt.Sprintf("%v/%x", r["block_num"], r["ev_from"])
+			if set, ok := bySrc[src]; ok && !set[key] {
+				return fmt.Sprintf("table %s: a row stamped %s/%v (block %v, sender %x) does not come from that source's chain", tb, src, r["ig_name"], r["block_num"], r["ev_from"])
+			}
+		}
+	}
 	return "ok"
 }
 
